@@ -457,6 +457,27 @@ template <bool Sparse> static void amdpCase(Rng & rng, long idx, size_t forceS =
     stat(Sparse ? "amdp:sparse" : "amdp:dense");
 }
 
+// AMDP with NO entropy bucket (the quantifier ranges over all bucket counts): there is no augmented state space at all, so the
+// request must be rejected with an exception that leaves the AMDP object as it was — or yield a valid model; it must never write
+// outside the tables.      C06 amdp0 <dense|sparse> <ctor|setEntropyBuckets> | <err> <buckets after> <S of the result>
+static void amdpZeroBucketsCase() {
+    for (int sparse = 0; sparse < 2; ++sparse) for (int viaSetter = 0; viaSetter < 2; ++viaSetter) {
+        Line l; l << "C06" << "amdp0" << (sparse ? "sparse" : "dense") << (viaSetter ? "setEntropyBuckets" : "ctor");
+        size_t S1 = 0, after = viaSetter ? 3 : 0;
+        std::unique_ptr<POMDP::AMDP> amdp;
+        std::string err = guarded([&] {
+            amdp.reset(new POMDP::AMDP(4, viaSetter ? 3 : 0));
+            if (viaSetter) amdp->setEntropyBuckets(0);
+            POMDP::Model<MDP::Model> model(2, 2, 2, 0.5);
+            if (sparse) { auto r = amdp->discretizeSparse(model); S1 = std::get<0>(r).getS(); }
+            else { auto r = amdp->discretizeDense(model); S1 = std::get<0>(r).getS(); }
+        });
+        if (amdp) after = amdp->getEntropyBuckets();
+        l << "|" << err << after << S1; l.emit();
+        stat(std::string("amdp0:") + err);
+    }
+}
+
 // ------------------------------------------------------------------------------------------ DDNGraph::push / CooperativeModel
 static void putTag(Line & l, const F::PartialKeys & k) { l << (size_t)k.size(); for (auto x : k) l << (size_t)x; }
 static void dumpGraph(Line & l, const F::DDNGraph & g) {
@@ -798,6 +819,7 @@ void verif_case(Rng & rng, long idx, const std::string & tier) {
     if (idx < 4) { witnessCases(idx); return; }
     if (idx == 4) { discCase(rng); return; }
     if (idx == 5) { bigRowCase(); return; }
+    if (idx == 6) { amdpZeroBucketsCase(); return; }
     switch (idx % 16) {
         case 0: isprobCase(rng); learnedCase(rng); break;
         case 1: amdpCase<false>(rng, idx); break;
